@@ -44,7 +44,7 @@ def terms_for(wd, pid, tier):
     cap = {"C13": 7000, "C10": 3000, "C12": 3000, "C11": 2000}[pid] * (1 if q else 6)
     if len(t2) > cap:
         t2 = rng.sample(t2, cap)
-    sims = xc.sim(wd, 3, "full", 3 if q else 5, 1500 if q else 12000, 40 + seed())
+    sims = xc.sim(wd, 3, "full", 3 if q else 5, 60 if q else 400, 40 + seed(), cap=20000 if q else 120000)
     t3 = [t for t in xc.with_ids(sims["terms"], "w-") if t["d"] >= 2 and t["m"]["op"] in want]
     if len(t3) > cap // 3:
         t3 = rng.sample(t3, cap // 3)
